@@ -28,6 +28,10 @@ import CLModel.Proofs.C16Cor
 import CLModel.Proofs.C16Wrap
 import CLModel.Proofs.C16RText
 import CLModel.Proofs.C16RIni
+import CLModel.Proofs.C16Sticky
+import CLModel.Proofs.C16WrapX
+import CLModel.Proofs.C16GInst
+import CLModel.Proofs.C16GInc
 namespace C16
 open AR Ser C16L
 
@@ -172,6 +176,215 @@ theorem serialized_shape (ref old : List Ent) (nd : NewData)
     (h0 : C16R.Alt C16R.wsKey (dkeys (d0Of ref))) (h1 : C16R.Alt C16R.wsKey (dkeys (d1Of ref old nd))) :
     C16R.Alt Ent.isWs (serializeEnts ref old nd) :=
   C16R.serializeEnts_alt ref old nd h0 h1
+
+
+/-! ## Round 4 -/
+
+/-- `Entity.wrap` writes the raw value VERBATIM between the reference entity's prefix and suffix: no escaping, no
+    trimming, whatever the value contains (a newline, a leading blank, the quote of a DTD entity …).  What a re-parse makes
+    of such a value is the parser's business: see the negation witnesses below (`.properties`: a trailing or LEADING blank
+    is lost, a newline splits the entity; `.dtd`: the reference's quote character ends the value). -/
+theorem wrap_verbatim (e : Ent) (raw : List Nat) :
+    (wrap e raw).all = e.pre ++ raw ++ e.post ∧ (wrap e raw).val = raw ∧ (wrap e raw).key = e.key ∧
+    (wrap e raw).isReal = true :=
+  ⟨rfl, rfl, rfl, rfl⟩
+
+/-- For ALL entry lists: the pruned entry list never has two adjacent white-space entries
+    (`prune_whitespace` folds them into the longer one). -/
+theorem no_adjacent_whitespace (ref old : List Ent) (nd : NewData) :
+    C16G.NoAdj Ent.isWs (serializeEnts ref old nd) :=
+  C16G.noAdj_serializeEnts ref old nd
+
+/-- For ALL entry lists: THE OUTPUT STARTS WITH A WHITE-SPACE ENTRY (a blank line: Junk for `.inc`) iff, in the key diff of
+    template and sanitized old localization, the first pair that is not (still) a placeholder once the new values are
+    filled in is white space.  Neither of the two `merge_two` reduces nor `prune_placeholders` changes that. -/
+theorem leading_blank_characterised (ref old : List Ent) (nd : NewData) :
+    C16R.hw Ent.isWs (serializeEnts ref old nd)
+      = C16R.hw pIsWs ((olderPairs (d0Of ref) (d1Of ref old nd)).filter (C16G.q2 (d2Of ref nd))) :=
+  C16G.hw_out ref old nd
+
+/-- WHAT `serialize` RETURNS, AS TEXT, for a reference and an old file printed record by record in ANY record syntax
+    `pre(key) ++ value ++ post ++ ⏎` (`C16G.RFmt`; instances: `key=value`, `<!ENTITY key "value">`, `#define key value`),
+    distinct keys per file, `new_data` a dict: an optional newline followed by EXACTLY the printed expected records. -/
+theorem serialized_text_partial (F : C16G.RFmt) (Sf : P.PRec → Prop) (refRecs oldRecs : List P.PRec) (nd : NewData)
+    (hold : ∀ r ∈ oldRecs, Sf r)
+    (hrk : (refRecs.map (·.1)).Nodup) (hok : (oldRecs.map (·.1)).Nodup) (hnd : (nd.map (·.1)).Nodup)
+    (hv : ∀ r ∈ refRecs, ∀ v, (r.1, some v) ∈ nd → Sf (r.1, v)) :
+    serializeOut (C16G.entsF F refRecs) (C16G.entsF F oldRecs) nd
+      = (if C16R.hw Ent.isWs (serializeEnts (C16G.entsF F refRecs) (C16G.entsF F oldRecs) nd) then [10] else [])
+        ++ C16G.printF F (C16R.expectedRecs refRecs oldRecs nd) ∧
+    ∀ r ∈ C16R.expectedRecs refRecs oldRecs nd, Sf r :=
+  C16G.out_text F Sf refRecs oldRecs nd hold hrk hok hnd hv
+
+/-- RE-PARSE, `.dtd`.  Reference and old localization printed as `<!ENTITY key "value">⏎` per record (`C02X.printDtd`; safe
+    records: key = ASCII letter then letters / digits / `.` / `-`; value without `"` and `&`), distinct keys per file, the old
+    file in any order, with obsolete keys, lacking keys or empty; `new_data` a dict whose values for reference keys contain
+    neither `"` nor `&`.  Then the text `serialize` returns is parsed by `DTDParser.walk`, WITHOUT JUNK, into exactly one
+    entity per expected record, in reference order — also when the output starts with a blank line (the first reference
+    entity is not emitted).
+    FULL statement (not proved): `'`-quoted reference entities (then a new value may contain `"` but not `'`), values with
+    `&…;` references, comments, blank lines, parameter entities.  A new value containing the reference's quote character is
+    the known finding C16-dtd-quote-conflict (witness below). -/
+theorem serialize_reparses_dtd_partial (refRecs oldRecs : List P.PRec) (nd : NewData)
+    (href : ∀ r ∈ refRecs, C02X.SafeDtdRec r) (hold : ∀ r ∈ oldRecs, C02X.SafeDtdRec r)
+    (hrk : (refRecs.map (·.1)).Nodup) (hok : (oldRecs.map (·.1)).Nodup) (hnd : (nd.map (·.1)).Nodup)
+    (hv : ∀ r ∈ refRecs, ∀ v, (r.1, some v) ∈ nd → C02X.SafeDtdRec (r.1, v)) :
+    ∃ t es, serializeText .dtd (C02X.printDtd refRecs).toArray (C02X.printDtd oldRecs).toArray nd = some t ∧
+      P.walk .dtd t.toArray = .done es ∧
+      P.entitiesOf .dtd t.toArray es = (C16R.expectedRecs refRecs oldRecs nd).map P.expectedView ∧
+      P.junkOf t.toArray es = [] :=
+  C16G.serialize_reparses_dtd refRecs oldRecs nd href hold hrk hok hnd hv
+
+/-- RE-PARSE, `.inc`.  Reference `#define key value⏎` per record with NON-EMPTY values (`C16G.SafeIncV`: key of word
+    characters, value non-empty without newline), old localization of the same form, distinct keys per file; new values for
+    reference keys non-empty without newline; and — because a leading blank line is Junk for `DefinesParser` — the FIRST
+    reference record is emitted (it has a new value, or an old value that is not removed) and the old file is empty or
+    starts with a record whose key is a reference key.  Then `DefinesParser.walk` parses the output, WITHOUT JUNK, into
+    exactly the expected records in reference order.
+    The three extra hypotheses are exactly the known findings: empty reference value = C16-inc-reference-without-value,
+    first record not emitted / old file starting with an obsolete key = C16-inc-leading-blank (witnesses below);
+    blank lines and `#filter emptyLines` (C16-inc-blank-lines) are outside the printed class. -/
+theorem serialize_reparses_inc_partial (r0 : P.PRec) (rs oldRecs : List P.PRec) (nd : NewData)
+    (href : ∀ r ∈ r0 :: rs, C16G.SafeIncV r) (hold : ∀ r ∈ oldRecs, C16G.SafeIncV r)
+    (hrk : ((r0 :: rs).map (·.1)).Nodup) (hok : (oldRecs.map (·.1)).Nodup) (hnd : (nd.map (·.1)).Nodup)
+    (hv : ∀ r ∈ r0 :: rs, ∀ v, (r.1, some v) ∈ nd → C16G.SafeIncV (r.1, v))
+    (hfirst : (C16R.expectedRec oldRecs nd r0).isSome = true)
+    (hohead : ∀ o, oldRecs.head? = some o → o.1 ∈ (r0 :: rs).map (·.1)) :
+    ∃ t es, serializeText .inc (C02X.printInc (r0 :: rs)).toArray (C02X.printInc oldRecs).toArray nd = some t ∧
+      P.walk .inc t.toArray = .done es ∧
+      P.entitiesOf .inc t.toArray es = (C16R.expectedRecs (r0 :: rs) oldRecs nd).map P.expectedView ∧
+      P.junkOf t.toArray es = [] :=
+  C16G.serialize_reparses_inc r0 rs oldRecs nd href hold hrk hok hnd hv hfirst hohead
+
+/-- when the output of two printed files starts with a blank line: never if the first reference record is emitted and the
+    old file is empty or starts with a reference key … -/
+theorem no_leading_blank_partial (F : C16G.RFmt) (r0 : P.PRec) (rs : List P.PRec) (nd : NewData) (oldRecs : List P.PRec)
+    (hrk : ((r0 :: rs).map (·.1)).Nodup) (hok : (oldRecs.map (·.1)).Nodup) (hnd : (nd.map (·.1)).Nodup)
+    (hfirst : (C16R.expectedRec oldRecs nd r0).isSome = true)
+    (hohead : ∀ o, oldRecs.head? = some o → o.1 ∈ (r0 :: rs).map (·.1)) :
+    C16R.hw Ent.isWs (serializeEnts (C16G.entsF F (r0 :: rs)) (C16G.entsF F oldRecs) nd) = false :=
+  C16G.no_lead_printed F r0 rs nd oldRecs hrk hok hnd hfirst hohead
+
+/-- … always if the first reference record is NOT emitted (this is finding C16-inc-leading-blank as a theorem) -/
+theorem leading_blank_partial (F : C16G.RFmt) (r0 : P.PRec) (rs : List P.PRec) (nd : NewData) (oldRecs : List P.PRec)
+    (hrk : ((r0 :: rs).map (·.1)).Nodup) (hok : (oldRecs.map (·.1)).Nodup) (hnd : (nd.map (·.1)).Nodup)
+    (hfirst : C16R.expectedRec oldRecs nd r0 = none) :
+    C16R.hw Ent.isWs (serializeEnts (C16G.entsF F (r0 :: rs)) (C16G.entsF F oldRecs) nd) = true :=
+  C16G.lead_printed F r0 rs nd _ oldRecs (C16G.oldOK_entsF F _ nd oldRecs hok) hrk hnd hfirst
+
+/-- TEXT-LEVEL IDEMPOTENCE, `.properties` (printed safe records, the class of `serialize_reparses_properties_partial`):
+    serialize; parse the returned text with `PropertiesParser.walk`; serialize again with that as the old localization and
+    NO new data: the SAME TEXT is returned — `serialize(ref, parse(serialize(ref, old, new)), {}) == serialize(ref, old, new)`.
+    Route: the output text is an optional newline + the printed expected records (`serialized_text_partial`); its parse is
+    the same entry list after one white-space entry; the expected records of the second run are the same records
+    (`C16G.expectedRecs_again`); and the leading newline is reproduced (`leading_blank_characterised` evaluated on both runs). -/
+theorem serialize_idempotent_text_properties_partial (refRecs oldRecs : List P.PRec) (nd : NewData)
+    (href : ∀ r ∈ refRecs, P.SafeRec r) (hold : ∀ r ∈ oldRecs, P.SafeRec r)
+    (hrk : (refRecs.map (·.1)).Nodup) (hok : (oldRecs.map (·.1)).Nodup) (hnd : (nd.map (·.1)).Nodup)
+    (hv : ∀ r ∈ refRecs, ∀ v, (r.1, some v) ∈ nd → P.SafeRec (r.1, v)) :
+    ∃ t, serializeText .properties (P.printProps refRecs).toArray (P.printProps oldRecs).toArray nd = some t ∧
+      serializeText .properties (P.printProps refRecs).toArray t.toArray [] = some t :=
+  C16G.idempotent_text_props refRecs oldRecs nd href hold hrk hok hnd hv
+
+/-- TEXT-LEVEL IDEMPOTENCE, `.dtd` (the class of `serialize_reparses_dtd_partial`) -/
+theorem serialize_idempotent_text_dtd_partial (refRecs oldRecs : List P.PRec) (nd : NewData)
+    (href : ∀ r ∈ refRecs, C02X.SafeDtdRec r) (hold : ∀ r ∈ oldRecs, C02X.SafeDtdRec r)
+    (hrk : (refRecs.map (·.1)).Nodup) (hok : (oldRecs.map (·.1)).Nodup) (hnd : (nd.map (·.1)).Nodup)
+    (hv : ∀ r ∈ refRecs, ∀ v, (r.1, some v) ∈ nd → C02X.SafeDtdRec (r.1, v)) :
+    ∃ t, serializeText .dtd (C02X.printDtd refRecs).toArray (C02X.printDtd oldRecs).toArray nd = some t ∧
+      serializeText .dtd (C02X.printDtd refRecs).toArray t.toArray [] = some t :=
+  C16G.idempotent_text_dtd refRecs oldRecs nd href hold hrk hok hnd hv
+
+/-- TEXT-LEVEL IDEMPOTENCE, `.inc` (the class and the no-leading-blank hypotheses of `serialize_reparses_inc_partial`) -/
+theorem serialize_idempotent_text_inc_partial (r0 : P.PRec) (rs oldRecs : List P.PRec) (nd : NewData)
+    (href : ∀ r ∈ r0 :: rs, C16G.SafeIncV r) (hold : ∀ r ∈ oldRecs, C16G.SafeIncV r)
+    (hrk : ((r0 :: rs).map (·.1)).Nodup) (hok : (oldRecs.map (·.1)).Nodup) (hnd : (nd.map (·.1)).Nodup)
+    (hv : ∀ r ∈ r0 :: rs, ∀ v, (r.1, some v) ∈ nd → C16G.SafeIncV (r.1, v))
+    (hfirst : (C16R.expectedRec oldRecs nd r0).isSome = true)
+    (hohead : ∀ o, oldRecs.head? = some o → o.1 ∈ (r0 :: rs).map (·.1)) :
+    ∃ t, serializeText .inc (C02X.printInc (r0 :: rs)).toArray (C02X.printInc oldRecs).toArray nd = some t ∧
+      serializeText .inc (C02X.printInc (r0 :: rs)).toArray t.toArray [] = some t :=
+  C16G.idempotent_text_inc r0 rs oldRecs nd href hold hrk hok hnd hv hfirst hohead
+
+/-! ### sticky entries (`StickyEntry`, Android `DocumentWrapper`) -/
+
+/-- "ALWAYS KEEP THE ONE FROM THE REFERENCE DOCUMENT", part 1 — for ALL entry lists: every sticky entry of the output is an
+    entry of the REFERENCE.  A sticky entry of the old localization (its `<?xml?><resources`, its root attributes, its
+    `</resources>`) never reaches the output: `get_older_entity` replaces it by the reference's entry under the same key,
+    or by `None` when the reference has none (an attribute only the old root element has is dropped). -/
+theorem sticky_from_reference (ref old : List Ent) (nd : NewData) :
+    ∀ e ∈ serializeEnts ref old nd, e.isSticky = true → e ∈ ref :=
+  C16S.sticky_from_reference ref old nd
+
+/-- part 2: if the template holds the sticky entry `r` under key `s`, every non-junk old entry keyed `s` is sticky too, and no
+    reference Entity is keyed `s`, then `r` IS in the output — whatever the old document's entry under `s` looks like
+    (other attribute value, other XML declaration).  Both side conditions are needed: witnesses below. -/
+theorem sticky_kept (ref old : List Ent) (nd : NewData) (s : List Nat) (r : Ent)
+    (h0 : dget (d0Of ref) (MKey.str s) = some r) (hr : r.isSticky = true)
+    (hold : ∀ e ∈ old, e.isJunk = false → strKeyed e = true → e.key = s → e.isSticky = true)
+    (hkn : known ref s = false) :
+    r ∈ serializeEnts ref old nd :=
+  C16S.sticky_kept ref old nd s r h0 hr hold hkn
+
+/-! ### Fluent `wrap` (model over the printer contract of `serialize_comment`) -/
+
+/-- `FluentEntity.wrap(raw)`: the text of the created entity is the REFERENCE entity's comment, re-created by
+    `serialize_comment`, followed by the raw value verbatim (nothing is added when the reference has no comment); same key.
+    The comment of the OLD localization or a comment inside `raw` plays no role here (a `raw` that itself starts with a
+    comment therefore yields two comment blocks: the oracle compares Fluent values without comments). -/
+theorem fluent_wrap_spec (s : Array Nat) (b : FBody) (e : P.Entry) (raw : List Nat) (hk : e.kind = .entity) :
+    (wrap (fluentToEnt s b e) raw).all = (match b.comment with | some c => serializeComment c | none => []) ++ raw ∧
+    (wrap (fluentToEnt s b e) raw).key = pySlice s e.ks e.ke ∧
+    (wrap (fluentToEnt s b e) raw).val = raw ∧
+    (wrap (fluentToEnt s b e) raw).isReal = true :=
+  C16W.fluent_wrap_spec s b e raw hk
+
+/-- for EVERY comment content: what `serialize_comment` prints reads back (drop the final line break, split into lines,
+    drop `#` / `# `) to exactly that content … -/
+theorem fluent_comment_roundtrip (c : List Nat) : C16W.commentContent (serializeComment c) = c :=
+  C16W.commentContent_serializeComment c
+
+/-- … and every printed line starts with `#` -/
+theorem fluent_comment_lines (c : List Nat) :
+    ∀ l ∈ splitNl (serializeComment c).dropLast, l.head? = some 35 :=
+  C16W.serializeComment_lines c
+
+/-- the entry-level Fluent walk used by the serializer model yields, entry by entry, the texts of the C01 model of
+    `FluentParser.walk` (which is tied to the real walk by the `fluentwalk` stream) -/
+theorem fluent_walk_texts (s : Array Nat) (body : List FBody) :
+    (fluentWalkEnts s body).map (·.all) = (P.fluentWalk s (body.map (·.entry)) false).map (fun e => e.all s) :=
+  C16W.fluentWalkEnts_alls s body
+
+/-! ### Android `wrap` (model on the minidom summary) -/
+
+/-- reference `<string …>TEXT</string>`: the new value replaces the whole text, with `& < " >` escaped -/
+theorem android_wrap_text (key pre : List Nat) (el : XElem) (d x raw : List Nat)
+    (h : el.children = [{ kind := .text, data := d, xml := x }]) :
+    androidWrap key pre el raw =
+      .ok { kind := .entity, key := key, val := raw,
+            all := pre ++ (el.open_ ++ [62] ++ xmlEscape raw ++ [60, 47] ++ el.tag ++ [62]) } :=
+  C16W.androidWrap_single_text key pre el d x raw h
+
+/-- reference `<string …><![CDATA[…]]></string>`: the new value replaces the character data verbatim; a value containing
+    `]]>` cannot be written (minidom raises `ValueError`) -/
+theorem android_wrap_cdata (key pre : List Nat) (el : XElem) (d x raw : List Nat)
+    (h : el.children = [{ kind := .cdata, data := d, xml := x }]) :
+    androidWrap key pre el raw =
+      if P.isInfix cdataClose raw then .error .cdataEnd
+      else .ok { kind := .entity, key := key, val := raw,
+                 all := pre ++ (el.open_ ++ [62] ++ (cdataOpen ++ raw ++ cdataClose) ++ [60, 47] ++ el.tag ++ [62]) } :=
+  C16W.androidWrap_single_cdata key pre el d x raw h
+
+/-- reference `<string name="a"/>` / `<string name="a"></string>`: `wrap` raises (finding C16-android-empty-reference-string) -/
+theorem android_wrap_empty_raises (key pre : List Nat) (el : XElem) (raw : List Nat) (h : el.children = []) :
+    androidWrap key pre el raw = .error .unboundChild :=
+  C16W.androidWrap_empty key pre el raw h
+
+/-- escaping is reversible for ALL raw values (re-parsing the written text node gives the raw value back) and the escaped
+    text contains none of `<`, `>`, `"` -/
+theorem android_escape_roundtrip (t : List Nat) : C16W.xmlUnescape (xmlEscape t) = t := C16W.xmlUnescape_escape t
+
+theorem android_escape_safe (t : List Nat) : ∀ c ∈ xmlEscape t, c ≠ 60 ∧ c ≠ 62 ∧ c ≠ 34 := C16W.xmlEscape_safe t
 
 /-! ### non-vacuity and witnesses -/
 
@@ -333,6 +546,98 @@ example :
       [{ kind := .other, key := [79], val := [79], all := [91, 79, 93] }, wS 1, eK 97 121, wS 1] [])
       = [91, 79, 93, 10, 91, 83, 93, 10, 97, 61, 121, 10] := by
   decide
+
+
+/-! #### round 4: witnesses and non-vacuity -/
+
+def sT (k a : Nat) : Ent := { kind := .sticky, key := [k], val := [a], all := [60, k, a, 62] }
+
+/-- `sticky_from_reference` / `sticky_kept`, non-vacuity: reference `<?r> <a r> ⏎ k=E ⏎`, old document `<?o> <a o> <b o> ⏎ k=y ⏎`
+    (other declaration, other value of attribute `a`, an attribute `b` the reference does not have): the output has the
+    REFERENCE's `<?r>` and `<a r>`, not `<b o>`, and the old value of `k` -/
+example :
+    serializeEntsS [sT 63 114, sT 97 114, wS 1, eK 107 69, wS 1] [sT 63 111, sT 97 111, sT 98 111, wS 1, eK 107 121, wS 1] []
+      = [sT 63 114, sT 97 114, wS 1, eK 107 121, wS 1] := by
+  decide
+
+/-- NEGATION WITNESS for `hold` of `sticky_kept` (every old entry under the key is sticky): the old file has an obsolete
+    ENTITY whose key is the key of a sticky reference entry (Android: `<string name="xmlns:a">` against the root attribute
+    `xmlns:a`): the entity's placeholder wins the merge and is pruned — the reference's sticky entry is LOST.
+    The real code does the same (probe `android.sticky_key_clash`). -/
+example :
+    serializeEntsS [sT 63 114, sT 97 114, wS 1, eK 107 69, wS 1] [sT 63 111, wS 1, eK 97 121, wS 1] []
+      = [sT 63 114, wS 1] := by
+  decide
+
+/-- NEGATION WITNESS for `hkn` of `sticky_kept` (no reference Entity under the key): a reference entity `a=E` shares the key of
+    the sticky entry and a new value is given for it: the new entity replaces the sticky entry -/
+example :
+    (serializeEntsS [eK 97 69, wS 1, sT 97 114, wS 1] [] [([97], some [78])]).map (·.kind) = [.entity, .whitespace] := by
+  decide
+
+/-- Fluent: reference comment `a⏎⏎b` is re-created as `# a⏎#⏎# b⏎` in front of the raw value -/
+example : serializeComment [97, 10, 10, 98] = [35, 32, 97, 10, 35, 10, 35, 32, 98, 10] ∧
+    C16W.commentContent [35, 32, 97, 10, 35, 10, 35, 32, 98, 10] = [97, 10, 10, 98] := by decide
+
+/-- Android, finding C16-android-reference-markup: reference `<string name="k">Hello <b>E</b></string>` (a Text node and an
+    Element, no CDATA): `wrap` assigns `.data` of the LAST child, an Element — nothing changes, the English text is emitted;
+    with a Text node last (`Hello <b>E</b> tail`) only that node is replaced and `Hello <b>E</b>` stays -/
+example :
+    androidWrap [107] [] { open_ := [60, 115], tag := [115], children := [{ kind := .text, data := [72] }, { kind := .other, xml := [60, 98, 62] }] } [78]
+      = .ok { kind := .entity, key := [107], val := [78], all := [60, 115, 62, 72, 60, 98, 62, 60, 47, 115, 62] } ∧
+    androidWrap [107] [] { open_ := [60, 115], tag := [115], children := [{ kind := .text, data := [72] }, { kind := .other, xml := [60, 98, 62] }, { kind := .text, data := [116] }] } [78]
+      = .ok { kind := .entity, key := [107], val := [78], all := [60, 115, 62, 72, 60, 98, 62, 78, 60, 47, 115, 62] } :=
+  ⟨rfl, rfl⟩
+
+/-- Android: a value that needs escaping, `a&"<` → `a&amp;&quot;&lt;` -/
+example : xmlEscape [97, 38, 34, 60] = [97, 38, 97, 109, 112, 59, 38, 113, 117, 111, 116, 59, 38, 108, 116, 59] := by decide
+
+/-- `serialize_reparses_dtd_partial`, non-vacuity: reference `a b c`, old file `c x a` (reordered, obsolete `x`, `b` missing),
+    new data `{b: N w, c: None, u: U}`: expected records `a=y`, `b=N w` -/
+example :
+    ∃ t es, serializeText .dtd (C02X.printDtd [([97], [69]), ([98], [70]), ([99], [71])]).toArray
+        (C02X.printDtd [([99], [122]), ([120], [111]), ([97], [121])]).toArray
+        [([98], some [78, 32, 119]), ([99], none), ([117], some [85])] = some t ∧
+      P.walk .dtd t.toArray = .done es ∧
+      P.entitiesOf .dtd t.toArray es = [P.expectedView ([97], [121]), P.expectedView ([98], [78, 32, 119])] ∧
+      P.junkOf t.toArray es = [] := by
+  have hs : ∀ k v : Nat, (k = 97 ∨ k = 98 ∨ k = 99 ∨ k = 120) → v ≠ 34 → v ≠ 38 → C02X.SafeDtdRec ([k], [v]) := by
+    intro k v hk h1 h2
+    rcases hk with rfl | rfl | rfl | rfl <;>
+      exact ⟨by simp, by intro c hc; simp at hc; subst hc; decide, by intro c hc; simp at hc; subst hc; decide,
+        by intro c hc; simp at hc; subst hc; exact ⟨h1, h2⟩⟩
+  have h := serialize_reparses_dtd_partial [([97], [69]), ([98], [70]), ([99], [71])]
+    [([99], [122]), ([120], [111]), ([97], [121])] [([98], some [78, 32, 119]), ([99], none), ([117], some [85])]
+    (by intro r hr; simp at hr; rcases hr with rfl | rfl | rfl <;> exact hs _ _ (by simp) (by decide) (by decide))
+    (by intro r hr; simp at hr; rcases hr with rfl | rfl | rfl <;> exact hs _ _ (by simp) (by decide) (by decide))
+    (by decide) (by decide) (by decide)
+    (by
+      intro r hr v hm
+      simp at hr hm
+      rcases hr with rfl | rfl | rfl <;> simp at hm
+      subst hm
+      exact ⟨by simp, by intro c hc; simp at hc; subst hc; decide, by intro c hc; simp at hc; subst hc; decide,
+        by intro c hc; simp at hc; rcases hc with rfl | rfl | rfl <;> decide⟩)
+  have e : C16R.expectedRecs [([97], [69]), ([98], [70]), ([99], [71])] [([99], [122]), ([120], [111]), ([97], [121])]
+      [([98], some [78, 32, 119]), ([99], none), ([117], some [85])] = [([97], [121]), ([98], [78, 32, 119])] := by decide
+  rw [e] at h
+  exact h
+
+/-- NEGATION WITNESS for "new values contain no `"`" — known finding C16-dtd-quote-conflict: `wrap` copies the value verbatim
+    between the reference's quotes; `<!ENTITY a "x"y">` no longer matches the entity pattern -/
+example :
+    (wrap (C16G.entF C16G.dtdF ([97], [69])) [120, 34, 121]).all
+      = [60, 33, 69, 78, 84, 73, 84, 89, 32, 97, 32, 34, 120, 34, 121, 34, 62] := by decide
+
+/-- `serialize_reparses_inc_partial`: the hypotheses about the head are needed (finding C16-inc-leading-blank) — the old file
+    starts with an OBSOLETE key: its placeholder is pruned, its newline stays in front of the first entity -/
+example :
+    (serializeEntsS [eK 97 69, wS 1] [eK 120 111, wS 1, eK 97 121, wS 1] []).map (·.kind) = [.whitespace, .entity, .whitespace] := by
+  decide
+
+/-- NEGATION WITNESS for "a LEADING blank of a new `.properties` value survives": `a=` + ` N` re-parses with the value span
+    starting after the blank -/
+example : (wrap (eK 97 69) [32, 78]).all = [97, 61, 32, 78] ∧ (P.propsGetNext #[97, 61, 32, 78, 10] 0).vs = 3 := by decide
 
 end Examples
 
